@@ -84,7 +84,7 @@ def check_budget(mode):
             return
         up_unknown = [m for m in up['merchants'] if m['category'] == 'Unknown']
         up_cnt = sum(m['count'] for m in up_unknown)
-        up_tot = round(sum(abs(v) for m in up_unknown for v in [m['total']]), 2)
+        up_tot = round(sum(m['total'] for m in up_unknown), 2)
         # discover
         out, err, code = run_cmd(cmd_discover, config=b.config, settings='settings.yaml', limit=0, format='json')
         O.case(('discover', mode))
@@ -102,6 +102,11 @@ def check_budget(mode):
                 O.fail('C16.discover_lists_other_transactions', w, raw_unknown, descs, 'tally discover --format json vs tally up --format json -vv')
             elif d_cnt != up_cnt:
                 O.fail('C16.discover_counts_differ', w, up_cnt, d_cnt)
+            else:
+                d_tot = round(sum(d['total_spend'] for d in disc), 2)
+                if abs(d_tot - up_tot) > 0.005:
+                    O.fail('C16.discover_totals_differ', w, {'up: total of the Unknown merchants': up_tot}, {'discover: sum of total_spend': d_tot,
+                           'per description': {d['raw_description']: d['total_spend'] for d in disc}}, 'tally discover --format json vs tally up --format json -vv')
         # explain <merchant> for every merchant up reports
         for m in up['merchants']:
             O.case(('explain', mode, m['name']))
